@@ -309,6 +309,19 @@ def r5_purity(idx, r):
     r.require("info.sort()" in txt and "info[len(info) // 2]" in txt and "b.p.percentBu * self.getWeight(b)" in txt, "Median:median-of-weighted-burnup", gm, msg="the chosen member holds the median weighted burnup")
 
 
+def r7_methods_exist(idx, r):
+    """Every method the group manager invokes on an object that armi itself produced is defined somewhere."""
+    from ..methods import check_functions
+
+    m = idx.module(M)
+    if m is None:
+        raise AnchorMissing(M)
+    for f, c, ok, what in check_functions(idx, list(m.all_funcs())):
+        key = f"{f.qualname}:{what}"
+        r.require(ok, key, f, node=c, msg=f"`{what}` is called on an object produced by armi code, but no class, function or attribute named `{c.func.attr}` exists in armi "
+                  "or on a builtin type: the call raises AttributeError whenever this path runs")
+
+
 def run(idx, chk):
     chk.explanation = (
         "C20: every weighted mean in the block-collection classes is typed with a role generator W for the weights: the result must be of degree "
@@ -328,3 +341,6 @@ def run(idx, chk):
     chk.run_rule("R20.4", "type-label codec: constant field width over the admissible alphabet; decoder's single-label range covers every single label", lambda r: r4_label_codec(idx, r), floor=3,
                  necessary="every admissible label converts to its number and back")
     chk.run_rule("R20.5", "representative-block builders mutate only fresh copies; median returns a copy of a member", lambda r: r5_purity(idx, r), floor=8, necessary="creating representatives never changes the blocks of the core")
+
+    chk.run_rule("R20.7", "every method invoked on an armi-produced object while building representatives exists", lambda r: r7_methods_exist(idx, r), floor=25,
+                 necessary="'with the median option it is a copy of an actual member': a builder that raises AttributeError produces no representative")
